@@ -196,6 +196,87 @@ Proof. intros Hok Hm. rewrite <- (cbi_is_direct_sum t Hok). rewrite <- Rroot_mas
   munf. teq; field; auto. Qed.
 End T.
 
+(** ** the repaired recursion (children of zero composite mass are skipped; patches/C15_cbi_massless_chain.diff):
+    exact for EVERY tree without negative masses - massless terminal bodies and all-massless subtrees included *)
+Lemma toM_zero_mass (A : USpR) : u_mass A = 0 -> toM A = mzero.
+Proof. dM A. unfold u_mass. cbn [fst]. intros ->. munf. teq; ring. Qed.
+Lemma fold_G (L : list USpR) : forall R0, 0 <= u_mass R0 -> Forall (fun r => 0 <= u_mass r) L ->
+  toM (fold_left (fun R r => if isZero ROps (u_mass r) then R else uspAdd ROps R r) L R0) = fold_left madd (map toM L) (toM R0)
+  /\ u_mass (fold_left (fun R r => if isZero ROps (u_mass r) then R else uspAdd ROps R r) L R0) = fold_left Rplus (map u_mass L) (u_mass R0).
+Proof. induction L as [|r L IH]; intros R0 H0 HL; cbn [fold_left map]; auto.
+  inversion HL as [|? ? Hr HL']; subst. destruct (isZero ROps (u_mass r)) eqn:E.
+  - apply isZero_true in E. rewrite (toM_zero_mass r E), madd_zero_r, E, Rplus_0_r. apply IH; auto.
+  - apply isZero_false in E. assert (Hs : u_mass R0 + u_mass r <> 0) by lra.
+    rewrite <- toM_add, <- mass_add by auto. apply IH; auto. rewrite mass_add. lra. Qed.
+
+Section TG.
+Context {X : Type} (xl : X -> Vec3 R) (xM : X -> USpR).
+Notation cbiGR := (cbiG ROps xl xM).
+Definition RrootG (t : tree X) : USpR := snd (root (cbiGR t)).
+Definition nonneg (t : tree X) : Prop := Forall (fun x => 0 <= u_mass (xM x)) (flatten t).
+Lemma nonneg_node x cs : nonneg (Node x cs) <-> 0 <= u_mass (xM x) /\ Forall nonneg cs.
+Proof. unfold nonneg. cbn [flatten]. split.
+  - intros H. inversion H as [|? ? H1 H2]; subst. split; auto. clear H H1. induction cs as [|c r IH]; constructor; cbn [flat_map] in H2; apply Forall_app in H2; destruct H2; auto.
+  - intros [H1 H2]. constructor; auto. clear H1. induction cs as [|c r IH]; cbn [flat_map]; [constructor|]. inversion H2; subst. apply Forall_app. split; auto. Qed.
+Lemma cbiG_node x cs : cbiGR (Node x cs) = Node (x, cbiStepG ROps xl xM x (map root (map cbiGR cs))) (map cbiGR cs).
+Proof. reflexivity. Qed.
+Lemma root_cbiG_fst t : fst (root (cbiGR t)) = root t.
+Proof. destruct t; reflexivity. Qed.
+Lemma cbiStepG_fold x (rs : list (X * USpR)) :
+  cbiStepG ROps xl xM x rs = fold_left (fun R r => if isZero ROps (u_mass r) then R else uspAdd ROps R r)
+                                       (map (fun r => uspShift ROps (v3_neg ROps (xl (fst r))) (snd r)) rs) (xM x).
+Proof. unfold cbiStepG. generalize (xM x). induction rs as [|r rs IH]; intros a; cbn [fold_left map]; auto. rewrite mass_shift. apply IH. Qed.
+
+Lemma RrootG_mass_nonneg t : nonneg t -> u_mass (RrootG t) = tmass xM t /\ 0 <= tmass xM t.
+Proof. induction t as [x cs IH] using tree_ind'. intros Hn. apply nonneg_node in Hn. destruct Hn as [H0 Hc].
+  unfold RrootG. rewrite cbiG_node. cbn [root snd tmass]. rewrite cbiStepG_fold.
+  set (L := map (fun r => uspShift ROps (v3_neg ROps (xl (fst r))) (snd r)) (map root (map cbiGR cs))).
+  assert (HL : map u_mass L = map (tmass xM) cs /\ Forall (fun r => 0 <= u_mass r) L).
+  { unfold L. clear L. induction cs as [|c r IHr]; cbn [map]; [split; [reflexivity|constructor]|].
+    inversion IH as [|? ? IHc IHrest]; subst. inversion Hc as [|? ? Hc1 Hc2]; subst. destruct (IHr IHrest Hc2) as [E1 E2].
+    destruct (IHc Hc1) as [Em Ep]. unfold RrootG in Em. split.
+    - rewrite mass_shift, Em, E1. reflexivity.
+    - constructor; auto. rewrite mass_shift, Em. exact Ep. }
+  destruct HL as [HL1 HL2]. destruct (fold_G L (xM x) H0 HL2) as [_ Em]. rewrite Em, HL1. split; auto.
+  clear Em. assert (Hp : Forall (fun m => 0 <= m) (map (tmass xM) cs)) by (rewrite <- HL1; clear -HL2; induction L; cbn; constructor; inversion HL2; auto).
+  clear -H0 Hp. revert H0. generalize (u_mass (xM x)). induction (map (tmass xM) cs) as [|m l IHl]; intros a Ha; cbn [fold_left]; auto.
+  inversion Hp; subst. apply IHl; auto. lra. Qed.
+
+Theorem cbiG_is_direct_sum_gen : forall t, nonneg t -> forall o, mshift (v3_neg ROps o) (toM (RrootG t)) = direct xl xM o t.
+Proof.
+  induction t as [x cs IH] using tree_ind'. intros Hn o. apply nonneg_node in Hn. destruct Hn as [H0 Hc].
+  unfold RrootG. rewrite cbiG_node. cbn [root snd]. rewrite cbiStepG_fold.
+  set (L := map (fun r => uspShift ROps (v3_neg ROps (xl (fst r))) (snd r)) (map root (map cbiGR cs))).
+  assert (HL : Forall (fun r => 0 <= u_mass r) L).
+  { unfold L. clear L. induction cs as [|c r IHr]; cbn [map]; constructor.
+    - inversion Hc; subst. rewrite mass_shift. destruct (RrootG_mass_nonneg c) as [Em Ep]; auto. unfold RrootG in Em. rewrite Em. exact Ep.
+    - inversion IH; subst. inversion Hc; subst. apply IHr; auto. }
+  destruct (fold_G L (xM x) H0 HL) as [E _]. rewrite E. clear E.
+  rewrite fold_left_madd, mshift_madd, mshift_msum.
+  unfold direct. cbn [offs map]. change (msum (?a :: ?l)) with (madd a (msum l)). cbn [fst snd]. f_equal.
+  clear HL. unfold L. clear L. rewrite !map_map.
+  induction cs as [|c r IHr]; cbn [map flat_map]; [reflexivity|].
+  inversion IH as [|? ? IHc IHrest]; subst. inversion Hc as [|? ? Hc1 Hc2]; subst.
+  rewrite map_app, msum_app. change (msum (?a :: ?l)) with (madd a (msum l)). f_equal.
+  - rewrite toM_shift, mshift_mshift, v3_neg_add, root_cbiG_fst. apply (IHc Hc1).
+  - apply IHr; auto.
+Qed.
+(** with the repair, non-negative masses suffice: the recursion's root value is the direct sum over the subtree *)
+Theorem cbiG_is_direct_sum t : nonneg t -> toM (RrootG t) = direct xl xM (0,0,0) t.
+Proof. intros H. rewrite <- (cbiG_is_direct_sum_gen t H (0,0,0)).
+  replace (v3_neg ROps (0,0,0)) with ((0,0,0) : Vec3 R) by (vunf; teq; ring). rewrite mshift_zero_vec. reflexivity. Qed.
+End TG.
+
+(** the defect of the current code, on the float side only (over R, 1/0 is a number and nothing is visible): the
+    witness tree  B1(m=2) - B2(m=0) - B3(m=0)  violates [cbi_ok] but satisfies [nonneg] *)
+Example massless_chain_outside_domain :
+  let mk (m : R) : Vec3 R * USpR := ((1,0,0), (m, (0,0,0), ((0,0,0),(0,0,0)))) in
+  let t := Node (mk 2) [Node (mk 0) [Node (mk 0) []]] in
+  ~ cbi_ok snd t /\ nonneg snd t.
+Proof. cbv zeta. split.
+  - cbn. intros [_ [[[H _] _] _]]. apply H. lra.
+  - unfold nonneg. cbn. repeat constructor; cbn; lra. Qed.
+
 (** non-vacuity: a massless base body carrying a massive leaf and a massive body that carries a massive leaf *)
 Example cbi_hyp_satisfiable :
   let mk (m : R) : Vec3 R * USpR := ((1,0,0), (m, (0,1,0), ((1,1,1),(0,0,0)))) in
